@@ -37,12 +37,21 @@ Model/XmlDesc.vos Model/XmlDesc.vok Model/XmlDesc.required_vos: Model/XmlDesc.v 
 Model/XmlTree.vo Model/XmlTree.glob Model/XmlTree.v.beautified Model/XmlTree.required_vo: Model/XmlTree.v Model/Text.vo
 Model/XmlTree.vio: Model/XmlTree.v Model/Text.vio
 Model/XmlTree.vos Model/XmlTree.vok Model/XmlTree.required_vos: Model/XmlTree.v Model/Text.vos
+Proofs/Text.vo Proofs/Text.glob Proofs/Text.v.beautified Proofs/Text.required_vo: Proofs/Text.v Model/Text.vo
+Proofs/Text.vio: Proofs/Text.v Model/Text.vio
+Proofs/Text.vos Proofs/Text.vok Proofs/Text.required_vos: Proofs/Text.v Model/Text.vos
 Proofs/Vhd.vo Proofs/Vhd.glob Proofs/Vhd.v.beautified Proofs/Vhd.required_vo: Proofs/Vhd.v Base/Arith.vo Base/Plan.vo Base/Table.vo Model/Vhd.vo
 Proofs/Vhd.vio: Proofs/Vhd.v Base/Arith.vio Base/Plan.vio Base/Table.vio Model/Vhd.vio
 Proofs/Vhd.vos Proofs/Vhd.vok Proofs/Vhd.required_vos: Proofs/Vhd.v Base/Arith.vos Base/Plan.vos Base/Table.vos Model/Vhd.vos
+Proofs/Vmx.vo Proofs/Vmx.glob Proofs/Vmx.v.beautified Proofs/Vmx.required_vo: Proofs/Vmx.v Model/Text.vo Model/XmlTree.vo Gen/DescTables.vo Model/Vmx.vo Proofs/Text.vo
+Proofs/Vmx.vio: Proofs/Vmx.v Model/Text.vio Model/XmlTree.vio Gen/DescTables.vio Model/Vmx.vio Proofs/Text.vio
+Proofs/Vmx.vos Proofs/Vmx.vok Proofs/Vmx.required_vos: Proofs/Vmx.v Model/Text.vos Model/XmlTree.vos Gen/DescTables.vos Model/Vmx.vos Proofs/Text.vos
+Proofs/XmlDesc.vo Proofs/XmlDesc.glob Proofs/XmlDesc.v.beautified Proofs/XmlDesc.required_vo: Proofs/XmlDesc.v Base/Plan.vo Model/Text.vo Model/XmlTree.vo Gen/DescTables.vo Model/XmlDesc.vo Proofs/Text.vo
+Proofs/XmlDesc.vio: Proofs/XmlDesc.v Base/Plan.vio Model/Text.vio Model/XmlTree.vio Gen/DescTables.vio Model/XmlDesc.vio Proofs/Text.vio
+Proofs/XmlDesc.vos Proofs/XmlDesc.vok Proofs/XmlDesc.required_vos: Proofs/XmlDesc.v Base/Plan.vos Model/Text.vos Model/XmlTree.vos Gen/DescTables.vos Model/XmlDesc.vos Proofs/Text.vos
 Props/C04.vo Props/C04.glob Props/C04.v.beautified Props/C04.required_vo: Props/C04.v Base/Plan.vo Base/Table.vo Model/Vhd.vo Proofs/Vhd.vo
 Props/C04.vio: Props/C04.v Base/Plan.vio Base/Table.vio Model/Vhd.vio Proofs/Vhd.vio
 Props/C04.vos Props/C04.vok Props/C04.required_vos: Props/C04.v Base/Plan.vos Base/Table.vos Model/Vhd.vos Proofs/Vhd.vos
-Props/C18.vo Props/C18.glob Props/C18.v.beautified Props/C18.required_vo: Props/C18.v Model/Text.vo Model/XmlTree.vo Model/Vmx.vo Model/XmlDesc.vo
-Props/C18.vio: Props/C18.v Model/Text.vio Model/XmlTree.vio Model/Vmx.vio Model/XmlDesc.vio
-Props/C18.vos Props/C18.vok Props/C18.required_vos: Props/C18.v Model/Text.vos Model/XmlTree.vos Model/Vmx.vos Model/XmlDesc.vos
+Props/C18.vo Props/C18.glob Props/C18.v.beautified Props/C18.required_vo: Props/C18.v Base/Plan.vo Model/Text.vo Model/XmlTree.vo Gen/DescTables.vo Model/Vmx.vo Model/XmlDesc.vo Proofs/Text.vo Proofs/Vmx.vo Proofs/XmlDesc.vo
+Props/C18.vio: Props/C18.v Base/Plan.vio Model/Text.vio Model/XmlTree.vio Gen/DescTables.vio Model/Vmx.vio Model/XmlDesc.vio Proofs/Text.vio Proofs/Vmx.vio Proofs/XmlDesc.vio
+Props/C18.vos Props/C18.vok Props/C18.required_vos: Props/C18.v Base/Plan.vos Model/Text.vos Model/XmlTree.vos Gen/DescTables.vos Model/Vmx.vos Model/XmlDesc.vos Proofs/Text.vos Proofs/Vmx.vos Proofs/XmlDesc.vos
